@@ -8,7 +8,7 @@ import fcntl, os, subprocess, sys, time
 
 ROOT = os.path.dirname(os.path.dirname(os.path.abspath(__file__)))
 REPO = os.environ.get("VERIF_REPO", "/repo")
-BUILD = os.path.join(ROOT, "build")
+BUILD = os.environ.get("VERIF_BUILD", os.path.join(ROOT, "build"))
 GUARD = "-DLIBOCCA_OCCA_VERIF"
 
 VARIANTS = {
